@@ -158,25 +158,28 @@ func sh(from, rule, as, why string, only ...string) share {
 // never shares, directly or not, from the property that borrows from it).
 var sharedRules = map[string][]share{
 	"C01": {
+		sh("fn:discovery", "C18.R4", "C01.S4", "Count, All and the iterators report the objects the directory listing finds: a discovery that mis-parses <uuid><extension>[.gz] hides objects that were accepted, or reports files that are not objects"),
 		sh("C14", "C14.R4", "C01.S3", "a clone that leaves some kinds shallow lets the caller change what cached reads report without any accepted write"),
 		sh("C14", "C14.R1", "C01.S1", "a stored entry that aliases the caller's structure changes what reads report without any accepted write"),
 		sh("C14", "C14.R2", "C01.S2", "a read that hands out the stored entry lets the caller change what later reads report"),
 	},
-	"C02": {sh("C14", "C14.R1", "C02.S1", "a search on an unindexed field evaluates the cached objects: an entry aliasing the caller's value makes it match on values that were never written")},
+	"C02": {sh("C20", "C20.R5", "C02.S3", "a search resolves the object ids of the index entries through the id-to-uuid map: an id handed out twice after reopening makes an entry resolve to another object"), sh("C12", "C12.R5", "C02.S2", "And on an empty result must stay empty: a constraining set that is tested by its length instead of nil turns an empty constraint into no constraint and the search returns objects that do not satisfy the predicate"), sh("C14", "C14.R1", "C02.S1", "a search on an unindexed field evaluates the cached objects: an entry aliasing the caller's value makes it match on values that were never written")},
 	"C04": {sh("fn:discovery", "C18.R4", "C04.S2", "reopening re-discovers the object files from their names: a discovery that mis-parses <uuid><extension>[.gz] reports a healthy collection as corrupted"), sh("C10", "C10.R7", "C04.S1", "a pending write that survives the deletion of its object is flushed later: the file of a deleted object reappears and the reopened handle sees a collection the closed one did not have", "")},
 	"C05": {sh("C11", "C11.R1", "C05.S2", "after a crash the reopened handle learns about a lost file or a lost index entry only through these two loops, under every configuration"), sh("C11", "C11.R6", "C05.S1", "reopening after a crash relies on the schema control to report every index/file divergence: a success path that skips an inclusion loop lets a stale entry survive unnoticed", "")},
-	"C06": {sh("C05", "C05.R5", "C06.S1", "a write that fails after the temporary file exists leaves that file behind: if the integrity control takes it for the object's file, the failed write is silently half-applied", "")},
+	"C06": {sh("C08", "C08.R3", "C06.S3", "the validation verdict of a write must still hold when the index is changed: if the handle lock is released in between, a write that is refused (unique violation) has already been half-applied by the time the error is returned"), sh("C11", "C11.R1", "C06.S2", "a write refused for a corrupted index must be refused with the error class the integrity control reports (wrapped with %w), otherwise callers and Repair cannot tell the refused write from an applied one"), sh("C05", "C05.R5", "C06.S1", "a write that fails after the temporary file exists leaves that file behind: if the integrity control takes it for the object's file, the failed write is silently half-applied", "")},
 	"C11": {sh("fn:discovery", "C18.R4", "C11.S2", "Control and Repair see the directory through the discovery function: it has to recognise every object file name the namer can produce (extension with inner dots, compressed suffix)"), sh("C18", "C18.R1", "C11.S1", "Control and Repair decide which directory entries are object files with this pattern: it has to accept every identifier the write path can produce (callers may supply upper-case UUIDs)", "pattern.uuid")},
-	"C03": {sh("C04", "C04.R4", "C03.S1", "uniqueness is judged on the case-normalised value: a published schema without its transformer list judges raw values")},
+	"C03": {sh("C20", "C20.R5", "C03.S2", "the unique test recognises the object being updated by its id: an id handed out twice after reopening lets a second object take a unique value, or refuses an update of the owner"), sh("C04", "C04.R4", "C03.S1", "uniqueness is judged on the case-normalised value: a published schema without its transformer list judges raw values")},
 	"C15": {sh("C16", "C16.R3", "C15.S2", "the schema case transforms run over the transformer list: a descriptor with a case constraint that is kept out of it is validated and stored untransformed"), sh("C04", "C04.R4", "C15.S1", "the schema case transforms are a no-op on a published schema whose transformer list was not rebuilt")},
 	"C16": {sh("C04", "C04.R4", "C16.S1", "case-insensitive fields are stored and indexed un-normalised when a published schema lacks its transformer list")},
 	"C07": {sh("C08", "C08.R3", "C07.S1", "validate-all then insert-all is atomic only if both loops run in one critical section: a writer admitted in between makes the insert loop fail half-way")},
-	"C08": {sh("C10", "C10.R5", "C08.S1", "the flusher's closed-handle test and its flush must be one critical section, otherwise the flush can run after a concurrent Close/Drop returned (check-then-act)")},
-	"C12": {sh("C14", "C14.R4", "C12.S3", "with the cache (or asynchronous writes) on, reads come from clones: a shallow clone makes cached and uncached configurations answer differently after the caller edits its own value"), sh("C01", "C01.R7", "C12.S2", "the indexed search reports an unreadable object when its result is collected: the scan of an unindexed field has to report it too, not stop silently"), sh("C01", "C01.R2", "C12.S1", "under every cache / async valuation a delete evicts what that valuation caches, otherwise Exist/Get answers depend on the configuration")},
+	"C08": {sh("C01", "C01.R8", "C08.S2", "two overlapping bulk deletes must end as one of their sequential orders does: the second one meets objects the first already removed and has to go on to the end of its iterator"), sh("C10", "C10.R5", "C08.S1", "the flusher's closed-handle test and its flush must be one critical section, otherwise the flush can run after a concurrent Close/Drop returned (check-then-act)")},
+	"C12": {sh("C17", "C17.R8", "C12.S4", "when a Create changes the cache setting the cache of the collection is dropped, otherwise reads under the new configuration answer from entries the old one left behind"), sh("C14", "C14.R4", "C12.S3", "with the cache (or asynchronous writes) on, reads come from clones: a shallow clone makes cached and uncached configurations answer differently after the caller edits its own value"), sh("C01", "C01.R7", "C12.S2", "the indexed search reports an unreadable object when its result is collected: the scan of an unindexed field has to report it too, not stop silently"), sh("C01", "C01.R2", "C12.S1", "under every cache / async valuation a delete evicts what that valuation caches, otherwise Exist/Get answers depend on the configuration")},
 	"C09": {sh("C13", "C13.R6", "C09.S1", "the bulk delete holds the handle write lock while it drains an iterator and continues after read errors: an iterator that does not advance on an error never reaches the end, the call never returns and every other call blocks")},
-	"C13": {sh("C11", "C11.R7", "C13.S2", "an index that failed its ordering control must never be served: result order is the order of the index"), sh("C02", "C02.R5", "C13.S1", "result order is the order of the live field index: a write through a result slice aliasing it re-orders or drops entries")},
+	"C13": {sh("C11", "C11.R8", "C13.S4", "result order is the order of the index as loaded: an ordering control that skips entries lets an index file with an unordered tail be served"), sh("C08", "C08.R1", "C13.S3", "a walk over the sorted list of a field index must exclude writers: a concurrent insertion or deletion shifts the entries under it and the result is neither ordered nor complete", "fieldIndex."), sh("C11", "C11.R7", "C13.S2", "an index that failed its ordering control must never be served: result order is the order of the index"), sh("C02", "C02.R5", "C13.S1", "result order is the order of the live field index: a write through a result slice aliasing it re-orders or drops entries")},
 	"C18": {sh("C14", "C14.R7", "C18.S3", "with asynchronous writes the file is encoded from the cloned pending copy: a clone that turns empty containers into nil writes null where the object's JSON encoding has [] or {}"), sh("C17", "C17.R6", "C18.S2", "a stored schema whose extension / compression / descriptors are switched by a later Create no longer describes the files that are on disk"), sh("C16", "C16.R4", "C18.S1", "field descriptors are part of schema.json and are compared on Create: the tag words must produce the constraint flags the pinned release wrote")},
+	"C10": {sh("C17", "C17.R3", "C10.S1", "a Create that switches asynchronous writes off must flush the pending writes first: afterwards nothing flushes them and acknowledged writes never reach the disk", "pending writes flushed before the settings change")},
 	"C19": {
+		sh("C11", "C11.R8", "C19.S6", "the index panics recorded as known findings are unreachable only for an ordered index: the ordering control has to compare every entry"),
 		sh("C17", "C17.R2", "C19.S1", "the index panics recorded as known findings are unreachable only for an index that passed the control: a schema published after a failed control reaches them"),
 		sh("C02", "C02.R4", "C19.S3", "the comparators assert the dynamic type of both operands without a check: the class guard is what turns a mistyped search value into ErrCasting instead of a panic"),
 		sh("C11", "C11.R7", "C19.S4", "a structurally wrong schema.json (reordered or missing index entries) must be refused on every call, not published under the repairable class: the field-index deletion panics on such an index"),
